@@ -23,7 +23,8 @@ Inductive mcase :=
 | MBroadcastTo (s target : list Z)
 | MContract (ea eb : list Z)
 | MCooInit (ndata ncols nshape nrows : Z)
-| MCaxes (ndim : Z) (ca : option (list Z)).
+| MCaxes (ndim : Z) (ca : option (list Z))
+| MDot1d (la lb : Z).
 
 Definition verdict {A} (r : res A) : option exc := match r with Ok _ => None | Raise e => Some e end.
 
@@ -41,6 +42,7 @@ Definition model_verdict (m : mcase) : option (option exc) :=
   | MContract a b => Some (verdict (v_tensordot_check a b))
   | MCooInit a b c d => Some (verdict (v_coo_init a b c d))
   | MCaxes nd ca => Some (verdict (v_check_caxes nd ca))
+  | MDot1d a b => Some (verdict (v_dot_1d_check a b))
   end.
 
 (* the Spec's verdict for the same argument (true = NumPy accepts); the theorems of Props/C18.v say
@@ -58,6 +60,7 @@ Definition spec_accepts (m : mcase) : option bool :=
   | MContract a b => Some (np_contract_ok a b)
   | MCooInit a b c d => Some (negb (negb (c =? 0) && (negb (a =? b) || negb (c =? d))))
   | MCaxes nd ca => Some (caxes_ok nd ca)
+  | MDot1d a b => Some (a =? b)
   end.
 
 Definition clean (e : exc) : bool :=
@@ -72,6 +75,7 @@ Definition api_case := (Z * list Z * list Z * bool * mcase * Z * sarr)%type.
    10 hang | 11 interpreter crash
    20 oracle rejects, implementation returned a result
    21 oracle rejects, implementation raised a class other than ValueError/IndexError/TypeError
+      (a NotImplementedError for a documented limitation, flag `allowed`, is tolerated)
    30 oracle accepts, implementation returned another value (informational: other properties)
    40 oracle accepts, implementation raised ValueError/IndexError/TypeError outside the table of
       documented limitations
@@ -96,7 +100,7 @@ Definition judge_api (c : api_case) : Z :=
         | Some None => 51
         | None => 0
         end
-      else 21
+      else if allowed && exc_eqb e NotImplementedError then 0 else 21
     else
       if allowed then (if clean e || exc_eqb e NotImplementedError then 0 else 41)
       else if clean e then 40 else 41
